@@ -43,6 +43,8 @@ Why(c, e) ==
        ELSE IF c.uw /\ e.k = "B" /\ Top(d) > 0 /\ Len(d.slots) > d.bases[Top(d)] /\ Last(d.slots) # NilS THEN "OneValue-handler-start"
        ELSE IF c.uw /\ e.k = "F" /\ Len(d.slots) > 0 /\ Last(d.slots) # NilS THEN "OneValue-handler-start"
        ELSE IF e.k = "F" /\ ~OneValueCount(c, d) THEN "OneValue"
+       \* a plain block that completed hands up the value of its last statement - the top of ITS region - or nil
+       ELSE IF e.k = "F" /\ e.plain /\ ~OneValueStrict(c, d) THEN "OneValue-value"
        ELSE IF e.k \in {"I", "F"} /\ ~unwind /\ ~OneValueLoose(c, d) THEN "OneValue"
        ELSE IF e.k = "I" /\ e.oc = "ENDSTATEMENT" /\ ~StatementClean(d) THEN "StatementClean"
        \* loops do not accumulate: from its third (re)start on, a frame's region at its first
@@ -50,6 +52,21 @@ Why(c, e) ==
        ELSE IF IsRestart(e) /\ c.fids = e.fids /\ c.rn[Len(e.fids)] >= 2
                /\ Len(d.slots) - d.bases[Top(d)] > c.rs[Len(e.fids)] THEN "LoopClean"
        ELSE ""
+
+\* ---- compact states (operand stacks too high to log every value): [fids, bases, n]
+\* the frame structure alone: bases ordered and inside the stack, surviving frames keep their base, and a frame
+\* that is entered records the height at that moment as its base (the entering operator consumed at most 3 operands)
+WhyCompact(c, e) ==
+    LET nb == Len(e.bases) IN
+    IF Len(e.fids) # nb \/ (\E i \in 1..nb : e.bases[i] < 0) \/ (\E i \in 1..(nb - 1) : e.bases[i] > e.bases[i + 1])
+       \/ (nb > 0 /\ e.bases[nb] > e.n) THEN "Partition"
+    ELSE IF c = None THEN ""
+    ELSE LET k == CommonFrom(c.fids, e.fids, 1) IN
+         IF \E i \in 1..k : c.bases[i] # e.bases[i] THEN "NoStealing"
+         ELSE IF nb = Len(c.fids) + 1 /\ k = Len(c.fids) /\ ~(e.bases[nb] <= c.n /\ e.bases[nb] >= c.n - 3) THEN "Partition-base-is-height-at-entry"
+         \* leaving frames never takes operands of the frames that stay (their bases bound the height from below)
+         ELSE IF nb > 0 /\ e.n < e.bases[nb] THEN "NoStealing"
+         ELSE ""
 
 TraceInit == l = 1 /\ last = [i \in CtxIds |-> None] /\ dead = FALSE /\ bad = <<>> /\ nops = 0 /\ done = FALSE
 
@@ -60,6 +77,12 @@ Consume ==
          [] e.e = "Crash" ->
                 /\ bad' = IF dead THEN bad ELSE Append(bad, [id |-> e.id, line |-> l, why |-> "Crash", op |-> e.why])
                 /\ dead' = TRUE /\ UNCHANGED <<last, nops>>
+         [] e.e = "SC" /\ ~dead ->
+                LET w == WhyCompact(last[e.ctx], e) IN
+                IF w = "" THEN /\ last' = [last EXCEPT ![e.ctx] = [fids |-> e.fids, bases |-> e.bases, n |-> e.n]]
+                               /\ nops' = nops + 1 /\ UNCHANGED <<dead, bad>>
+                ELSE /\ bad' = Append(bad, [id |-> e.id, line |-> l, why |-> w, op |-> e.oc])
+                     /\ dead' = TRUE /\ UNCHANGED <<last, nops>>
          [] e.e = "S" /\ ~dead ->
                 LET w == Why(last[e.ctx], e) IN
                 IF w = "" THEN /\ last' = [last EXCEPT ![e.ctx] = Record(last[e.ctx], e)]
